@@ -700,6 +700,10 @@ fn finish(g: &mut G, profile_name: &str, seed: u64, mut actors: Vec<ActorSpec>, 
                     let uid = g.uid();
                     let steps = g.msg_steps(a);
                     let mut flags = 0;
+                    if mty == MTy::U && p.p_hpanic > 0 && g.r.chance(p.p_hpanic) {
+                        // a panic raised by the message's on_tell_result (after the handler has returned) is a panic of the actor
+                        flags |= F_TRPANIC;
+                    }
                     if mty == MTy::J {
                         match g.r.below(6) {
                             0 => flags |= F_JPANIC,
